@@ -46,8 +46,13 @@ package backend
 //@ // before its Done (closeguard: the sender must still own its unit).
 //@ func (*ClassifierBackend).ClassifyLicenses$1
 //@   holds wgtok(&wg) 1
+//@   // ... and one free buffer slot of each channel: its (at most one) error and
+//@   // the slot it gives back can be sent without blocking
+//@   holds chcredit(task) 1
+//@   holds chcredit(errs) 1
 //@   requires b != nil && b.classifier != nil && readyClassifier(b.classifier) && held(&b.mu) == 0
 //@   requires wgtok(&wg) == 1 && mayclose(task) == 0 && mayclose(errs) == 0 && wgst(&wg) == 0
+//@   requires chcredit(task) == 1 && chcredit(errs) == 1 && task != errs
 //@   modifies b.results, anyelems(b.results)
 //@   props C19
 //@
@@ -63,8 +68,14 @@ package backend
 //@ func (*ClassifierBackend).ClassifyLicenses
 //@   closeguard task wg
 //@   closeguard errs wg
+//@   // no send of the pool can block: `task` has room for every slot, `errs` for
+//@   // one error per file
+//@   nonblocking task
+//@   nonblocking errs
 //@   requires b != nil && b.classifier != nil && readyClassifier(b.classifier) && held(&b.mu) == 0
-//@   loop 1 invariant mayclose(task) == 1
+//@   requires numTasks >= 0
+//@   loop 1 invariant mayclose(task) == 1 && 0 <= i && i <= numTasks && chcredit(task) == numTasks - i
+//@   loop 2 invariant chcredit(task) == 0 && chcredit(errs) == len(filenames) - (rangeindex + 1)
 //@   loop 2 invariant b != nil && b.classifier != nil && readyClassifier(b.classifier) && held(&b.mu) == 0
 //@   loop 2 invariant wgtok(&wg) == 0 && wgst(&wg) == 1 && mayclose(task) == 1 && mayclose(errs) == 1 && task != errs
 //@   props C19
